@@ -28,7 +28,7 @@ NSHARDS = {"quick": 16, "thorough": 16}
 N = {"quick": 40, "thorough": 1200}
 REQUIRE = {"events": 20000, "pipelines:QUERY": 5000, "pipelines:INTERACTIVE": 5000, "pipelines:BATCH_PIPELINE": 5000,
            "later_operators_ratio0": 20000, "later_operators_ratio1": 20000, "ratio_shift_checks": 16, "zero_prob_class_checks": 100,
-           "gap_mean_checks": 50, "class_frequency_checks": 300, "mean_operator_checks": 100}
+           "gap_mean_checks": 50, "gap_bound_checks": 20000, "class_frequency_checks": 300, "mean_operator_checks": 100}
 
 PROTO = {(float(c), l, float(r)): i for i, (c, l, r) in enumerate(gen.PROTOTYPES)}
 QPROTO = (float(gen.QUERY_PROTOTYPE[0]), gen.QUERY_PROTOTYPE[1], float(gen.QUERY_PROTOTYPE[2]))
@@ -129,6 +129,10 @@ def collect(g, p, max_events, max_ticks, mon, check_structure=True):
     return events, ranks
 
 
+def g_ticks_stepped(events, max_ticks):
+    return max_ticks - 1 - events[-1][0]
+
+
 def run_case(case, mon):
     if case["kind"] == "ratio":
         out = {}
@@ -161,6 +165,17 @@ def run_case(case, mon):
     gaps = [b[0] - a[0] for a, b in zip(events, events[1:])]
     if any(gp < 1 for gp in gaps):
         mon.fail("events-same-tick", "two arrival events in the same tick")
+    # gaps come from N(mean, mean/4) truncated to an integer: none can exceed 2.5*mean (+ rounding)
+    # except with probability < 1e-9; this includes the silent stretch at the end of the stepping
+    limit = 2.5 * wticks + 4
+    mon.count("gap_bound_checks", len(gaps) + 1)
+    worst = max(gaps) if gaps else 0
+    if worst > limit:
+        mon.fail("gap-too-long", f"gap of {worst} ticks between two arrival events; waiting_seconds_mean spans {wticks} ticks "
+                                 f"(a gap above {limit} has probability < 1e-9)")
+    if len(events) < case["events"] and g_ticks_stepped(events, max_ticks) > limit:
+        mon.fail("generator-went-silent", f"no arrival event during the last {g_ticks_stepped(events, max_ticks)} ticks stepped "
+                                          f"(mean gap {wticks} ticks, {len(events)} events so far)")
     pipes = [pl for _, ps in events for pl in ps]
     n = len(pipes)
     probs = {"INTERACTIVE": p["interactive_prob"], "QUERY": p["query_prob"], "BATCH_PIPELINE": p["batch_prob"]}
